@@ -15,7 +15,7 @@ use serde_json::json;
 pub static DEF: PropDef = PropDef {
     id: "C10",
     level: "exploration",
-    total: |t| t.pick(48, 1600),
+    total: |t| t.pick(384, 12800),
     run,
     rule: "random datagrams (payload 0..65515 biased to multiples of the per-MTU block size ±1, random payload bytes, all header fields random, DF set or clear, input itself optionally a middle fragment) pushed through chains of 1..4 decreasing MTUs in 68..65535 (all residues of (mtu-20) mod 8); the flattened result is checked against invariants stated in RFC 791 terms and against an independent reference cut computed by the harness; last 4 batches of thorough enumerate payload 0..2000 x MTU 68..120 exhaustively. Non-trivial = >=3 fragments and some MTU with (mtu-20) mod 8 != 0; distinct by (payload,mtu chain,DF,MF,offset) hash.",
     assumptions: &["input headers are self-consistent (total_length = 20 + payload length, offset+length within 13-bit offset range)"],
